@@ -32,6 +32,7 @@ type HTTPReq struct {
 	Outcome  string // filled when released
 	Status   int
 	Aborted  bool // the client's context ended while the request was parked
+	Chunked  bool // Serve only: the body is streamed without a Content-Length (Transfer-Encoding: chunked)
 	req      *http.Request
 }
 
@@ -173,6 +174,11 @@ func (f *Fabric) Serve(r *HTTPReq) (resp *http.Response) {
 	}
 	sreq := httptest.NewRequest(r.Method, "http://"+r.Host+r.Path, bytes.NewReader(r.Body))
 	sreq.Header = r.Header.Clone()
+	if r.Chunked {
+		sreq.ContentLength = -1
+		sreq.TransferEncoding = []string{"chunked"}
+		sreq.Body = io.NopCloser(struct{ io.Reader }{bytes.NewReader(r.Body)})
+	}
 	if r.req != nil {
 		sreq = sreq.WithContext(r.req.Context())
 		sreq.URL.RawQuery = r.req.URL.RawQuery
